@@ -72,12 +72,21 @@ func optNat(p *int) string {
 
 // CoqOp prints an opcase; rendered/rhooks are the manifest and hooks in the order Helm rendered them.
 func CoqOp(op *Op, rendered []Res, rhooks []Hook) string {
+	return coqOpH(op, rendered, coqHooks(rhooks))
+}
+
+// CoqRes / CoqResList print resources as Engine.Types.res terms.
+func CoqRes(r Res) string        { return coqRes(r) }
+func CoqResList(rs []Res) string { return coqResList(rs) }
+
+// coqOpH: hooks = the Gallina term (of type list hook) given to OpInstall / OpUpgrade.
+func coqOpH(op *Op, rendered []Res, hooks string) string {
 	var o string
 	switch op.Kind {
 	case "install":
-		o = fmt.Sprintf("(OpInstall %s %d %d %s %s)", coqFlags(op.Flags), op.ChartID, op.ValsID, coqResList(rendered), coqHooks(rhooks))
+		o = fmt.Sprintf("(OpInstall %s %d %d %s %s)", coqFlags(op.Flags), op.ChartID, op.ValsID, coqResList(rendered), hooks)
 	case "upgrade":
-		o = fmt.Sprintf("(OpUpgrade %s %d %d %s %s)", coqFlags(op.Flags), op.ChartID, op.ValsID, coqResList(rendered), coqHooks(rhooks))
+		o = fmt.Sprintf("(OpUpgrade %s %d %d %s %s)", coqFlags(op.Flags), op.ChartID, op.ValsID, coqResList(rendered), hooks)
 	case "rollback":
 		o = fmt.Sprintf("(OpRollback %s)", coqFlags(op.Flags))
 	default:
@@ -158,7 +167,11 @@ func coqLedger(l []LedgerRow) string {
 }
 
 // CoqCase prints a RunEng.case.
-func CoqCase(h History, o Obs) string {
+func CoqCase(h History, o Obs) string { return CoqCaseWith(h, o, nil) }
+
+// CoqCaseWith: like CoqCase; hooksTerm (optional) gives, for the install / upgrade at step i, the Gallina term
+// of type list hook to use instead of the printed rendered hooks ("" = default).
+func CoqCaseWith(h History, o Obs, hooksTerm func(i int) string) string {
 	init := map[string]map[string]string{}
 	for _, r := range h.Init {
 		init[r.Key()] = r.Fields
@@ -170,7 +183,14 @@ func CoqCase(h History, o Obs) string {
 			so = o.Steps[i]
 		}
 		if s.Op != nil {
-			steps = append(steps, "HOp "+CoqOp(s.Op, so.Rendered, so.RHooks))
+			ht := ""
+			if hooksTerm != nil {
+				ht = hooksTerm(i)
+			}
+			if ht == "" {
+				ht = coqHooks(so.RHooks)
+			}
+			steps = append(steps, "HOp "+coqOpH(s.Op, so.Rendered, ht))
 		} else if s.Edit.Set != nil {
 			steps = append(steps, fmt.Sprintf("HEdit (ESet %s %s)", hx.CoqStr(s.Edit.Set.Key()), coqFields(s.Edit.Set.Fields)))
 		} else {
